@@ -112,7 +112,54 @@ def run(ctx, report):
                 laws(report, rng, t, inp)
             except Exception as e:  # noqa
                 report.fail('C10:oracle-raised:%s' % type(e).__name__, 'an API call on a valid path raised %s: %s' % (type(e).__name__, str(e)[:100]), inp)
+    # deep paths over REPEATED intermediate loops: trees of dense documents in which every loop occurs twice; count / select of
+    # 'L1/L2/SEG' must see the matches under every repeat of L1 (an independent walk over the live children decides)
+    import confgen
+    import docgen
+    for name in (['837.4010.X098.A1.xml', '837.5010.X222.A1.xml', '835.4010.X091.A1.xml', '834.5010.X220.A1.xml'] * (3 if thorough else 1)):
+        try:
+            segs, d, _sel = confgen.document(rng, name, ('~', '*', ':'), n_st=1, p_seg=0.2, p_loop=0.7, max_segs=200, loop_twice=True)
+        except Exception:  # noqa
+            continue
+        text = docgen.encode(segs, d, '')
+        for lid in ('ST_LOOP', 'DETAIL', '2000A', '2000B', '2000', '2300'):
+            for t in trees_of(text, lid)[:2]:
+                inp = {'what': 'twice:' + name, 'loop_id': lid, 'text': text[:3000]}
+                try:
+                    deep_query_law(report, rng, t, inp)
+                except Exception as e:  # noqa
+                    report.fail('C10:oracle-raised:%s' % type(e).__name__, 'a query on a valid deep path raised %s: %s' % (type(e).__name__, str(e)[:100]), inp)
     logging.disable(logging.NOTSET)
+
+
+def all_matches(t, loops, sid):
+    """independent evaluation of the path loops.../sid (no qualifier): every live node reached through EVERY repeat"""
+    level = [t]
+    for lp in loops:
+        level = [c for x in level for c in ctx_gen.live_children(x) if c.type == 'loop' and c.id == lp]
+    if sid is None:
+        return level
+    return [c for x in level for c in ctx_gen.live_children(x) if c.type == 'seg' and c.seg_data.get_seg_id() == sid]
+
+
+def deep_query_law(report, rng, t, inp):
+    cands = []
+    for loops, sg, _n in first_instances(t):
+        if len(loops) >= 2 or (len(loops) >= 1 and sg is not None):
+            cands.append((loops, None if sg is None else sg.seg_data.get_seg_id()))
+    rng.shuffle(cands)
+    for loops, sid in cands[:12]:
+        p = '/'.join(loops + ([sid] if sid else []))
+        want = all_matches(t, loops, sid)
+        report.case(('deepquery', inp['text'], inp['loop_id'], p))
+        report.count('law:deep-path-count')
+        if len(want) > 1:
+            report.count('law:deep-path-count:several-matches')
+        got = list(t.select(p))
+        c = t.count(p)
+        if c != len(want) or len(got) != len(want) or any(a is not b for a, b in zip(got, want)):
+            report.fail('C10:deep-path-misses-repeats', 'path %r: count %d, select %d nodes; the tree holds %d matching nodes' % (p, c, len(got), len(want)),
+                        dict(inp, path=p))
 
 
 def laws(report, rng, t, inp):
